@@ -131,7 +131,7 @@ def inc_unit(method, X):
                 ps.append(('outside the declared range the value is never returned silently (C06)',
                            z3.Implies(z3.Not(s.in_range(T)), z3.BoolVal(bool(warned)))))
             return ps
-        check_outcome(I, out, raises={'IncompleteDataError': spec_raise}, returns=posts, site='ThermochemIncomplete.' + method)
+        check_outcome(I, out, raises={'*': spec_raise}, returns=posts, site='ThermochemIncomplete.' + method)
         return {'inputs': {}}
     return run
 
